@@ -47,23 +47,29 @@ type World struct {
 	keys map[string]*chainkit.Key
 	dir  string
 
-	txs    map[[32]byte]*txInfo
-	ledger map[btc.TxPrevOut]*chainkit.Coin // harness view of the confirmed unspent outputs it can spend
-	blocks []*blockRec                      // blocks connected by the harness on top of the setup chain
-	log    []string                         // oracle lines = the op history (replay)
-	name   string
-	steps  int
-	failed bool
+	txs        map[[32]byte]*txInfo
+	ledger     map[btc.TxPrevOut]*chainkit.Coin // harness view of the confirmed unspent outputs it can spend
+	blocks     []*blockRec                      // blocks connected by the harness on top of the setup chain
+	log        []string                         // oracle lines = the op history (replay)
+	name       string
+	steps      int
+	failed     bool
+	propFailed bool // the property predicate itself has failed (not only the comparison with the model)
 	notFullRBF bool
-	dead   bool // a real operation did not return: nothing more can be done in this process
-	immature *chainkit.Coin
-	envAbort bool
-	order    []*txInfo // creation order (deterministic iteration)
+	dead       bool // a real operation did not return: nothing more can be done in this process
+	immature   *chainkit.Coin
+	envAbort   bool
+	order      []*txInfo // creation order (deterministic iteration)
+
+	conf    map[string]uint64 // confirmedSet's cache
+	confTx  map[string]bool
+	confKey string
 }
 
 var hungOp = make(chan string, 1)
 
 func (w *World) ask(line string) string {
+	defer prof("oracle")()
 	w.log = append(w.log, line)
 	return w.o.MustAsk(line)
 }
@@ -80,6 +86,7 @@ func hid(h [32]byte) string { return hex.EncodeToString(h[:]) }
 // newWorld builds the chain (nblocks of coinbases to OP_TRUE + funding outputs to the harness key), wires the
 // client globals and starts a fresh oracle.
 func newWorld(r *vlib.Run, g *vlib.Rng, name string, notFullRBF bool) *World {
+	defer prof("newWorld")()
 	w := &World{r: r, g: g, name: name, txs: map[[32]byte]*txInfo{}, ledger: map[btc.TxPrevOut]*chainkit.Coin{}, keys: map[string]*chainkit.Key{}, notFullRBF: notFullRBF}
 	opts := &chain.NewChanOpts{
 		BlockMinedCB:  func(bl *btc.Block) { txpool.BlockMined(bl) },  // client/main.go blockMined (fee statistics left out)
@@ -302,6 +309,7 @@ func (w *World) replay() map[string]interface{} {
 
 func (w *World) propFail(key, what string) {
 	w.failed = true
+	w.propFailed = true
 	w.r.PropFail(key, "["+w.name+" step "+strconv.Itoa(w.steps)+"] "+what, w.replay())
 }
 
@@ -520,6 +528,7 @@ func (w *World) blockLine(height uint32, txs []*txInfo) string {
 
 // submitBlock = client/main.go LocalAcceptBlock: BlockCommitInProgress around the commit, then common.Last.
 func (w *World) submitBlock(raw []byte) (res *chainkit.Result, pan string, hung bool) {
+	w.confKey = "" // the confirmed set is read again from the UTXO db after every block
 	pan, hung = w.guarded("CommitBlock", func() {
 		txpool.BlockCommitInProgress(true)
 		res = w.k.Submit(raw)
@@ -861,12 +870,15 @@ func realDump(pan bool) map[string]string {
 	d["X"] = strings.Join(x, " ")
 	if txpool.SortListDirty {
 		d["L"] = "dirty"
+		d["K"] = "dirty"
 	} else {
-		var l []string
+		var l, k []string
 		for _, t := range txpool.GetSortedMempool() {
 			l = append(l, btc.BIdxString(t.Hash.BIdx()))
+			k = append(k, fmt.Sprintf("%s:%d", btc.BIdxString(t.Hash.BIdx()), t.SortRank))
 		}
 		d["L"] = strings.Join(l, " ")
+		d["K"] = strings.Join(k, " ")
 	}
 	d["T"] = fmt.Sprintf("%d %d", txpool.TransactionsToSendWeight, len(txpool.TransactionsRejected))
 	d["E"] = b01(pan)
@@ -933,6 +945,7 @@ func (w *World) verify() {
 	if w.dead {
 		return
 	}
+	defer prof("verify")()
 	txpool.TxMutex.Lock()
 	defer txpool.TxMutex.Unlock()
 
@@ -954,7 +967,7 @@ func (w *World) verify() {
 	}
 	md0 := parseDump(w.ask("dump"))
 	if (md0["L"] == "dirty") != dirtyBefore {
-		w.tieFail("model-mismatch:dirty", fmt.Sprintf("SortListDirty: gocoin %v, model %q", dirtyBefore, md0["L"] == "dirty"))
+		w.tieFail("model-mismatch:dirty", fmt.Sprintf("SortListDirty: gocoin %v, model dirty=%v", dirtyBefore, md0["L"] == "dirty"))
 	}
 	w.mustOK("resort")
 	rd := realDump(false)
@@ -993,10 +1006,19 @@ func (w *World) verify() {
 				w.tieFail("model-mismatch:L", "sorted list of gocoin is not a parents-first permutation the model accepts")
 			}
 			w.r.Hit("resync:sort-ties")
+			md = parseDump(w.ask("dump"))
 		} else {
 			agree = false
 			w.tieFail("model-mismatch:L", "sorted list differs "+firstDiff(rd["L"], md["L"]))
 		}
+	}
+	// the SortRank of every list element (fixIndex / reindexDown / reindexEverything / buildSortedList)
+	if agree && rd["K"] != md["K"] {
+		agree = false
+		w.tieFail("model-mismatch:sortrank", "SortRank values along the sorted list differ "+firstDiff(rd["K"], md["K"]))
+	}
+	if md["G"] == "1" {
+		w.r.Hit("model:rank-wrap-flag")
 	}
 	if agree {
 		w.r.TieOK()
@@ -1039,21 +1061,33 @@ func (w *World) verify() {
 	w.r.Eval("state:"+bucket(len(txpool.TransactionsToSend))+"-txs", rd["P"]+"#"+rd["R"])
 }
 
-type outInfo struct {
-	value uint64
-}
-
-// checkProperty evaluates C12's predicate on the real pool (TxMutex locked).
-func (w *World) checkProperty(listing []*txpool.OneTxToSend) {
-	// the node's confirmed unspent set, from the UTXO db itself
+// confirmedSet returns the node's confirmed unspent outputs ("txid:vout" -> value) and the set of txids that
+// have one, read from the UTXO db itself. The db only changes when a block is connected or disconnected, so the
+// dump is kept until the db's own last-block marker (hash, height) or its record count moves.
+func (w *World) confirmedSet() (map[string]uint64, map[string]bool) {
+	db := w.k.Ch.Unspent
+	key := fmt.Sprintf("%x/%d", db.LastBlockHash, db.LastBlockHeight)
+	if w.confKey == key && w.conf != nil {
+		return w.conf, w.confTx
+	}
+	defer prof("verify.utxodump")()
 	conf := map[string]uint64{}
 	confTx := map[string]bool{}
-	for _, l := range chainkit.UtxoDump(w.k.Ch.Unspent) {
+	for _, l := range chainkit.UtxoDump(db) {
 		f := strings.Fields(l)
 		v, _ := strconv.ParseUint(f[1], 10, 64)
 		conf[f[0]] = v
 		confTx[f[0][:64]] = true
 	}
+	w.conf, w.confTx, w.confKey = conf, confTx, key
+	return conf, confTx
+}
+
+// checkProperty evaluates C12's predicate on the real pool (TxMutex locked).
+func (w *World) checkProperty(listing []*txpool.OneTxToSend) {
+	defer prof("verify.checkProperty")()
+	// the node's confirmed unspent set, from the UTXO db itself
+	conf, confTx := w.confirmedSet()
 	pool := map[[32]byte]*txpool.OneTxToSend{}
 	for _, t := range txpool.TransactionsToSend {
 		pool[t.Hash.Hash] = t
@@ -1124,35 +1158,62 @@ func (w *World) checkProperty(listing []*txpool.OneTxToSend) {
 	}
 	// the package's own checker
 	var bad bool
+	pm := prof("verify.mempoolcheck")
 	quiet(func() { bad = txpool.MempoolCheck() })
+	pm()
 	if bad {
 		w.propFail("mempoolcheck", "txpool.MempoolCheck() reports inconsistencies")
 	}
-	// listing: a permutation of the pool with parents first
+	// both listings: a permutation of the pool with parents first
+	w.checkParentsFirst("listing", "GetSortedMempoolRBF", listing, len(pool))
+	var sorted []*txpool.OneTxToSend
+	var span string
+	func() {
+		defer func() {
+			if x := recover(); x != nil {
+				span = fmt.Sprint(x)
+			}
+		}()
+		sorted = txpool.GetSortedMempool()
+	}()
+	if span != "" {
+		w.propFail("panic:sorted", "GetSortedMempool panics: "+span)
+	} else {
+		w.checkParentsFirst("sorted", "GetSortedMempool", sorted, len(pool))
+	}
+	w.checkTemplate(listing)
+}
+
+// checkParentsFirst: l lists every pooled transaction exactly once and no transaction before one it spends from.
+// Keys: <prefix>-dup, <prefix>-incomplete, <prefix>-order.
+func (w *World) checkParentsFirst(prefix, fn string, l []*txpool.OneTxToSend, npool int) {
 	pos := map[[32]byte]int{}
-	for i, t := range listing {
+	for i, t := range l {
 		if _, dup := pos[t.Hash.Hash]; dup {
-			w.propFail("listing-dup", "GetSortedMempoolRBF lists "+t.Hash.String()+" twice")
+			w.propFail(prefix+"-dup", fn+" lists "+t.Hash.String()+" twice")
 		}
 		pos[t.Hash.Hash] = i
+		if txpool.TransactionsToSend[t.Hash.BIdx()] != t {
+			w.propFail(prefix+"-incomplete", fn+" lists "+t.Hash.String()+" which is not (the record) in the pool")
+		}
 	}
-	if len(pos) != len(pool) {
-		w.propFail("listing-incomplete", fmt.Sprintf("GetSortedMempoolRBF lists %d of %d pooled txs", len(pos), len(pool)))
+	if len(pos) != npool {
+		w.propFail(prefix+"-incomplete", fmt.Sprintf("%s lists %d of %d pooled txs", fn, len(pos), npool))
 	}
-	for i, t := range listing {
+	for i, t := range l {
 		for _, ti := range t.TxIn {
 			if j, ok := pos[ti.Input.Hash]; ok && j >= i {
-				w.propFail("listing-order", fmt.Sprintf("GetSortedMempoolRBF places %s (#%d) before its parent (#%d)", t.Hash.String(), i, j))
+				w.propFail(prefix+"-order", fmt.Sprintf("%s places %s (#%d) before its parent %s (#%d)", fn, t.Hash.String(), i, btc.NewUint256(ti.Input.Hash[:]).String(), j))
 			}
 		}
 	}
-	w.checkTemplate(listing)
 }
 
 // checkTemplate assembles a block from the listing (as rpcapi GetTransactions does: in order, up to the weight
 // and sigops limits) and runs the node's own validation on it without committing: CheckBlock +
 // ProcessBlockTransactions, scripts verified (TrustedTxChecker off).
 func (w *World) checkTemplate(listing []*txpool.OneTxToSend) {
+	defer prof("verify.checkTemplate")()
 	if len(listing) == 0 {
 		return
 	}
